@@ -33,12 +33,34 @@ def generate(rng, tier):
     cases = []
     for _ in range(n):
         r, feats = S.gen_recipe(rng, W)
+        if rng.random() < 0.3 and factor_hidden_into_macro(rng, r):
+            feats = sorted(set(feats) | {"hidden_field_from_macro"})
         cases.append({"recipe": r, "reps": rng.choice([1, 1, 2]), "features": feats})
     return cases
 
 
+def factor_hidden_into_macro(rng, recipe):
+    """move the hidden fields of a top-level template (and the fields before them) into a macro,
+    so that the template itself declares no hidden field"""
+    cands = [s[1] for s in recipe["stmts"] if s[0] == "obj" and not s[1].get("include")
+             and any(n.startswith("__") for n, _ in s[1]["fields"])
+             and not any(d[0] == "nested" for _, d in s[1]["fields"])]
+    if not cands:
+        return False
+    t = rng.choice(cands)
+    last = max(i for i, (n, _) in enumerate(t["fields"]) if n.startswith("__"))
+    macro_fields = [list(f) for f in t["fields"][:last + 1]]
+    own = [list(f) for f in t["fields"][last + 1:]]
+    name = "m%d" % (len(recipe.get("macros", [])) + 1)
+    recipe.setdefault("macros", []).append([name, macro_fields])
+    t["include"] = [name]
+    t["own_fields"] = own
+    return True
+
+
 # ------------------------------------------------------------------ renaming (metamorphic)
-REN = {"__H": "HX", "__h0": "hx0"}
+REN = {"__H": "HX", "__h0": "hx0", "__": "hx1", "__-r": "hx2", "__ t": "hx3", "__-s": "HX2"}
+BACK = {v: k for k, v in REN.items()}
 
 
 def _ren(n):
@@ -75,6 +97,9 @@ def rename_hidden(recipe):
         for f in t["fields"]:
             f[0] = _ren(f[0])
             fdef(f[1])
+        for f in t.get("own_fields", []):
+            f[0] = _ren(f[0])
+            fdef(f[1])
         for s in t["friends"]:
             stmt(s)
 
@@ -86,21 +111,28 @@ def rename_hidden(recipe):
 
     for s in r["stmts"]:
         stmt(s)
+    for name, fields in r.get("macros", []):
+        for f in fields:
+            f[0] = _ren(f[0])
+            fdef(f[1])
     return r
 
 
 def strip_renamed(rows):
     out = []
     for t, fs in rows:
-        if t == "HX":
+        if t in ("HX", "HX2", "hx1"):
             continue
         def back(v):
-            if v[0] == "ref" and v[1] == "HX":
-                return ["ref", "__H", v[2]]
+            if v[0] == "ref" and v[1] in BACK:
+                return ["ref", BACK[v[1]], v[2]]
             if v[0] == "str":       # a name can be embedded in a value (repr of a forward-reference slot)
-                return ["str", v[1].replace("HX", "__H").replace("hx0", "__h0")]
+                x = v[1]
+                for vis in sorted(BACK, key=len, reverse=True):
+                    x = x.replace(vis, BACK[vis])
+                return ["str", x]
             return v
-        out.append([t, [[k, back(v)] for k, v in fs if k != "hx0"]])
+        out.append([t, [[k, back(v)] for k, v in fs if k not in ("hx0", "hx1", "hx2", "hx3")]])
     return out
 
 
